@@ -90,6 +90,12 @@ func (vm *VM) FindModuleByName(name string) *Module {
 func (vm *VM) CheckDepedency(name string) error {
 	moduleID, exists := vm.moduleGraph.GetIDFromName(name)
 	if exists {
+		// the module is already known (loaded, or still loading further up the
+		// import chain): record this import edge too - it may be the very edge
+		// that closes a cycle
+		if vm.csModuleID >= 0 {
+			vm.moduleGraph.AddDependency(vm.csModuleID, name, moduleID)
+		}
 		// check circular dependency
 		if vm.moduleGraph.CheckCircularDepedency(vm.csModuleID, moduleID) {
 			return zerr.ModuleCircularDependency()
